@@ -10,6 +10,7 @@ from __future__ import annotations
 
 from props.simcommon import base_out, replay_case, run_panel, sim_cases
 
+CANARY = True
 RULE = ("cases = generated dyadic specifications (bias: mixed filter-restricted/unrestricted discrete choices, 0-2 continuous "
         "choice grids of unequal sizes) x parameters x batches of 1/6/7/11 agents on and off the grid, solved or random value "
         "arrays, jit on; distinct = structural signature; evaluations = agent-periods checked against the specification")
